@@ -12,7 +12,7 @@ One run of one check =
 """
 import fcntl, hashlib, json, os, random, re, subprocess, sys, time
 
-ROOT = "/verif"
+ROOT = os.environ.get("VERIF_ROOT") or os.path.dirname(os.path.dirname(os.path.abspath(__file__)))   # relocatable (private copies of sub-agents)
 LEAN = f"{ROOT}/lean"
 BUILD = f"{ROOT}/build"
 WORK = f"{ROOT}/work"
